@@ -51,9 +51,9 @@ def cases(tier, seed):
         for n in ((2, 3) if tier == "quick" else (2, 3, 4)):
             kinds = tuple(["S"] * n if name == "spin" else [["E", "B"][i % 2] for i in range(n)])
             fam = family(kinds, 2)
-            kmax = 3 if n <= 3 else 2
+            kmax = (4 if n == 2 else 3) if n <= 3 else 2      # four rows: the smallest complete 2x2 blocks (a+b)(x+y)
             if tier != "quick" and n <= 3:
-                kmax = 4 if n == 2 else 3
+                kmax = 4
             for t in T.tables(fam, kmax, ordered_upto=1):
                 yield {"kind": "table", "kinds": list(kinds), "table": [list(r) for r in t]}
 
@@ -142,7 +142,9 @@ def run_case(desc, seed):
         return orig(bigraph, algo=algo)
 
     nontrivial = False
-    for algo in ALGOS:
+    # the graph construction depends on the incidence pattern only: generic prefactors and all-equal prefactors (for which a
+    # rank-revealing decomposition would find fewer bond operators than the cover) must both give the minimum cover
+    for algo, factors in [(a, f) for a in ALGOS for f in (factors, [1.0] * len(table))]:
         sm.bipartite_vertex_cover = spy
         try:
             model = Model(list(fam.basis), [])
@@ -164,8 +166,8 @@ def run_case(desc, seed):
             if len(left) > 1 and len(right) > 1:
                 nontrivial = True
             if bd[cut] != mc:
-                viol.append({"sig": f"C20:table:bond-not-minimum:{algo}",
-                             "msg": f"cut {cut}: bond dim {bd[cut]} != minimum cover {mc} of the {len(left)}x{len(right)} incidence matrix; bond dims {bd}"})
+                viol.append({"sig": f"C20:table:bond-not-minimum:{algo}" + (":equal-prefactors" if factors[0] == 1.0 and len(set(factors)) == 1 and len(factors) > 1 else ""),
+                             "msg": f"factors {factors} cut {cut}: bond dim {bd[cut]} != minimum cover {mc} of the {len(left)}x{len(right)} incidence matrix; bond dims {bd}"})
             if bd[cut] > min(len(left), len(right)):
                 viol.append({"sig": f"C20:table:bond-exceeds-partial-terms:{algo}",
                              "msg": f"cut {cut}: bond dim {bd[cut]} > min({len(left)},{len(right)})"})
